@@ -1,6 +1,6 @@
 CONSTANTS
-  MaxOps = 5
-  MaxLen = 16
+  MaxOps = 4
+  MaxLen = 14
 SPECIFICATION Spec
 VIEW View
 INVARIANTS DesignOK EmitCase
